@@ -58,6 +58,8 @@ VerdictConv(r) == LET i == PUnits[r.i]  j == PUnits[r.j]  x == FromWire(r.x)
   \* with two unsigned reps the calculation type is unsigned: wrap-around there is defined modular arithmetic, not an event
   [ok |-> r.forms = 1 /\ (claimed => (resok /\ (r.ub = 0 \/ (~f2 /\ ~Signed(r.R1) /\ ~Signed(r.R2))))), exact |-> qr[2] = Zero, cmp |-> (r.cexact = 1) = (qr[2] = Zero)]
 (* mixed: {i, j, x, y, lt..ne, dval (wire), dmag (pack of the difference's unit), sumq (p1 + (y in U_j as quantity)) position check} *)
+\* num / den is an integer of rep t
+Fits(t, num, den) == LET q == DivModT(num, den) IN q[2] = Zero /\ InRange(t, q[1])
 VerdictMixedPt(r) ==
   LET i == PUnits[r.i]  j == PUnits[r.j]  x == FromWire(r.x)  y == FromWire(r.y)
       p1 == Add(Mul(x, PosA(i, j)), PosB(i, j))   p2 == Add(Mul(y, PosA(j, i)), PosB(j, i))
@@ -70,8 +72,10 @@ VerdictMixedPt(r) ==
       \* logged sum point: value sv in a unit of magnitude smag whose origin is U_i's: position*grid = sv*sn/sd*grid + PosB(i,j)
   IN [ok |-> /\ (r.lt = 1) = (ord < 0) /\ (r.le = 1) = (ord <= 0) /\ (r.gt = 1) = (ord > 0) /\ (r.ge = 1) = (ord >= 0)
              /\ (r.eq = 1) = (ord = 0) /\ (r.ne = 1) = (ord # 0)
-             /\ Mul(Mul(FromWire(r.dval), dn), Grid(i, j)) = Mul(Sub(p1, p2), dd)
-             /\ Mul(Mul(FromWire(r.sv), sn), Grid(i, j)) = Mul(Add(Mul(x, PosA(i, j)), qdisp), sd)
-             /\ Mul(Mul(FromWire(r.mv), sn), Grid(i, j)) = Mul(Sub(Mul(x, PosA(i, j)), qdisp), sd),
+             \* exact difference / shifted values, demanded wherever the exact value is representable in the result's rep (an unsigned result
+             \* cannot hold a negative displacement)
+             /\ Fits(r.dR, Mul(Sub(p1, p2), dd), Mul(dn, Grid(i, j))) => Mul(Mul(FromWire(r.dval), dn), Grid(i, j)) = Mul(Sub(p1, p2), dd)
+             /\ Fits(r.sR, Mul(Add(Mul(x, PosA(i, j)), qdisp), sd), Mul(sn, Grid(i, j))) => Mul(Mul(FromWire(r.sv), sn), Grid(i, j)) = Mul(Add(Mul(x, PosA(i, j)), qdisp), sd)
+             /\ Fits(r.sR, Mul(Sub(Mul(x, PosA(i, j)), qdisp), sd), Mul(sn, Grid(i, j))) => Mul(Mul(FromWire(r.mv), sn), Grid(i, j)) = Mul(Sub(Mul(x, PosA(i, j)), qdisp), sd),
       ord |-> ord]
 =============================================================================
